@@ -4,13 +4,13 @@ CONSTANTS
   Clients = {c1, c2}
   Digests = {d1, d2}
   NoCache = {d2}
-  Invs = {"i1", "i2"}
+  Invs = {"i1"}
   MaxTasks = 2
   MaxOps = 2
   RetryLimit = 1
   Predeclared = TRUE
   AllowRequeue = FALSE
-  Features = {"cancel"}
+  Features = {}
 INVARIANTS
   TypeOK
   C01_Design
